@@ -47,4 +47,8 @@ pub trait Engine {
     fn isolate_every(&self, _unit: &UnitSpec) -> Option<u64> {
         None
     }
+    /// `false`: only a comparison child that dies counts, its fingerprint is not compared
+    fn isolate_compares_fingerprints(&self) -> bool {
+        true
+    }
 }
